@@ -469,6 +469,12 @@ func (cs *ChainState) StateCommitWithPreComputedState(
 		if err = cs.persistentRepo.SaveStateData(cs.persistentRepo.Database(), stateRoot, fullStateKeyVals); err != nil {
 			logger.Warnf("StateCommitWithPreComputedState: failed to store state data to disk: %v", err)
 		}
+		// The state data on disk is keyed by state root; without the header hash -> state root
+		// entry next to it, no state can be found by header hash once the in-memory repository
+		// is gone (GetStateByBlockHash falls back to the persistent repository).
+		if err = cs.persistentRepo.SaveStateRootByHeaderHash(cs.persistentRepo.Database(), blockHeaderHash, stateRoot); err != nil {
+			logger.Warnf("StateCommitWithPreComputedState: failed to store state root mapping to disk: %v", err)
+		}
 	}
 
 	latestBlock := cs.GetLatestBlock()
@@ -710,6 +716,9 @@ func (cs *ChainState) PersistStateForBlock(blockHeaderHash types.HeaderHash, sta
 	if !fuzzenv.Enabled() {
 		if err = cs.persistentRepo.SaveStateData(cs.persistentRepo.Database(), stateRoot, fullStateKeyVals); err != nil {
 			logger.Warnf("PersistStateForBlock: failed to store state data to disk: %v", err)
+		}
+		if err = cs.persistentRepo.SaveStateRootByHeaderHash(cs.persistentRepo.Database(), blockHeaderHash, stateRoot); err != nil {
+			logger.Warnf("PersistStateForBlock: failed to store state root mapping to disk: %v", err)
 		}
 	}
 
